@@ -15,7 +15,8 @@
   Reading of subject_*.go: publish / behavior / replay / async store the subscription and then `Add` the deleting
   teardown, which `subscriptionImpl.Add` runs at once on a disposed subscription (subscription.go:78-91). The unicast
   subject registers its teardown while holding `s.mu`, and that teardown takes `s.mu`: with a subscriber that is closed
-  by then its `Subscribe` never returns on the pinned tree (known finding); the reduction says what it must return.
+  by then its `Subscribe` never returned on the pinned tree; the reduction says what it must return, and the code repaired
+  in /repo 5f819fc (teardown registered after the lock is released) returns exactly that.
   Core Lean only.
 -/
 import RoModel.Subjects
